@@ -1,7 +1,7 @@
 (* C09 — Generated routes on meshes and trees are deadlock-free (partial, see DESIGN.md 5.9).
    Proved for every netlist: the Kahn-style checker evaluated on the real emitted routes is sound
    for "the channel-dependency graph of the request / response network is acyclic", and an acyclic
-   dependency graph admits no set of packets that wait for each other (any size, no bound). *)
+   dependency graph allows no set of packets that wait for each other (any size, no bound). *)
 From FV Require Import Base RouteMap Netlist Hw Check CheckProofs CdgProofs.
 
 Theorem C09_checker_sound : forall n, chk_C09 n = [] -> C09_on n.
@@ -51,7 +51,7 @@ Qed.
 Print Assumptions C09_hw_tree_acyclic.
 
 (* Part 3: hence C09 exactly as the checker states it (C09_on: the dependency sets of all request pairs and of all
-   response pairs are acyclic and admit no set of packets waiting for each other) for EVERY ID-routed description
+   response pairs are acyclic and allow no set of packets waiting for each other) for EVERY ID-routed description
    whose links form a tree -- no evaluation of the checker needed. *)
 Theorem C09_model_tree :
   forall (d : desc) (g : graph) (c : compiled) (ri : rinfo) (n : netlist) (dp : list (string * Z)),
